@@ -29,22 +29,34 @@ DRAIN = 48
 K_STALL = "stall-deasserts-valid-while-beat-waits"
 K_EOP = "extendWidth-drops-unaligned-eop"
 K_DEADLOCK = "blockingReg-before-reduceWidth-deadlock"
+K_XREADY = "widthExtend-ready-reads-undefined-eop-behind-blockingReg"
+K_PR_EMPTY = "widthReduce-emptyBits-is-valid-count"
 
 REG_STAGES = ("rd", "rb", "rr", "dc", "dl", "ff", "fz")
 
 
 # ----------------------------------------------------------------------------- chain helpers
-def parse_chain(chain):
-    """'rd,ex2,st0' -> [('rd',0),('ex',2),('st',0)]"""
+def parse_chain(chain, min_digits=None):
+    """'rd,ex2,st0' -> [('rd',0),('ex',2),('st',0)].  With min_digits (digits of the chain's input beat) a
+    pm<t> (matchWidth to t digits) is resolved to the converter it selects: px<t/m>, pr<m/t> or the wire (dl0)."""
     if chain in ("-", ""):
         return []
     out = []
+    m = min_digits
     for t in chain.split(","):
-        out.append((t[:2], int(t[2:]) if len(t) > 2 else 0))
+        k, a = t[:2], (int(t[2:]) if len(t) > 2 else 0)
+        if m is not None:
+            if k == "pm":
+                k, a = ("px", a // m) if a > m else ("pr", m // a) if a < m else ("dl", 0)
+            if k in ("ex", "px"):
+                m *= max(1, a)
+            elif k in ("re", "pr"):
+                m //= max(1, a)
+        out.append((k, a))
     return out
 
 
-def chain_info(stages, hold, polite):
+def chain_info(stages, hold, polite, eb=False):
     """Independent reading of what each stage promises (see module doc).
     returns dict(expect_transfers, expect_hold, cap, ex_product, has_fifo, tail_has_rude_stall)"""
     held = bool(hold)
@@ -73,7 +85,7 @@ def chain_info(stages, hold, polite):
             held = held and bool(polite)
         elif k == "ex":
             exprod *= max(1, a)
-        elif k == "re":
+        elif k in ("re", "pr"):
             if not held:
                 expect_transfers = False
             cap = cap * max(1, a)
@@ -84,17 +96,32 @@ def chain_info(stages, hold, polite):
     for k, a in stages:
         if k == "rb":
             waiting_for_ready = True
-        elif k in ("st", "ex") or (k == "dl" and a == 0) or (k == "re" and a <= 1):
+        elif k in ("st", "ex", "px") or (k == "dl" and a == 0) or (k in ("re", "pr") and a <= 1):
             pass
-        elif k == "re":
+        elif k in ("re", "pr"):
             if waiting_for_ready:
                 may_deadlock = True
             # ready_in of reduceWidth depends on its own counter only -> later stages see a normal consumer
             waiting_for_ready = False
         else:
             waiting_for_ready = False
+    # simulation only: Packet.h widthExtend's ready(in) reads eop(in) even while valid(in) is low; behind a blocking register
+    # (enable = ready, eop register without reset value) ready is X at power-up and the register enable with it
+    x_poison = False
+    comb_to_rb = False
+    for k, a in stages:
+        if k == "rb":
+            comb_to_rb = True
+        elif k == "px" or (k == "pr" and eb):
+            # (with EmptyBits widthReduce's ready(in) also reads emptyBits(in) through eop(out))
+            if comb_to_rb:
+                x_poison = True
+        elif k in ("st", "ex", "re", "pr") or (k == "dl" and a == 0):
+            pass
+        else:
+            comb_to_rb = False
     return dict(expect_transfers=expect_transfers, expect_hold=held, cap=cap, ex_product=exprod, has_fifo=has_fifo,
-                may_deadlock=may_deadlock)
+                may_deadlock=may_deadlock, x_poison=x_poison)
 
 
 def f_chain(stages, xs, stats=None):
@@ -111,14 +138,33 @@ def f_chain(stages, xs, stats=None):
             if stats is not None and len(xs) % r:
                 pass
             xs = out
-        elif k == "re":
+        elif k in ("re", "pr"):
+            # utils.h reduceWidth and Packet.h widthReduce (stream without Empty/EmptyBits): r slices, eop on the last
             r = max(1, a); out = []
             for (d, e, m) in xs:
                 q = len(d) // r
                 for i in range(r):
                     out.append((tuple(d[i * q:(i + 1) * q]), e and i == r - 1, m))
             xs = out
+        elif k == "px":
+            # Packet.h widthExtend: a group ends after r beats or at eop; the digits above a short group are unspecified
+            # (None = wildcard: stale register contents); eop and meta of the last member
+            r = max(1, a); out = []; g = []
+            for b in xs:
+                g.append(b)
+                if b[1] or len(g) == r:
+                    mdig = len(b[0])
+                    d = tuple(x for bb in g for x in bb[0]) + (None,) * ((r - len(g)) * mdig)
+                    if stats is not None and len(g) < r:
+                        stats["px_short_group"] += 1
+                    out.append((d, b[1], b[2])); g = []
+            xs = out
     return xs
+
+
+def rec_match(o, e):
+    """observed record vs expected record with wildcard digits"""
+    return o[1] == e[1] and o[2] == e[2] and len(o[0]) == len(e[0]) and all(y is None or x == y for x, y in zip(o[0], e[0]))
 
 
 # ----------------------------------------------------------------------------- case generation
@@ -147,20 +193,22 @@ def gen_bits(rng, n, kind, p=0.5):
     raise ValueError(kind)
 
 
-STAGE_KINDS = ["rd", "rb", "rr", "dc", "dl", "st", "ex", "re"]
+STAGE_KINDS = ["rd", "rb", "rr", "dc", "dl", "st", "ex", "re", "px", "pr", "pm"]
+PKT_KINDS = ["rd", "rb", "rr", "dc", "dl", "st", "px", "pr", "pm", "px", "pr"]     # streams with EmptyBits: no utils.h ex/re
 
 
-def gen_chain(rng, depth, allow_fifo=False, force=None):
-    """returns (tokens, min_digits, nstall)"""
-    for _ in range(200):
-        digits0 = rng.choice([1, 1, 1, 2, 3, 4, 6])
+def gen_chain(rng, depth, allow_fifo=False, force=None, kinds=None, ebsafe=False):
+    """returns (tokens, min_digits, nstall).  ebsafe: shapes on which Packet.h widthReduce's Empty/EmptyBits output is right
+    (narrow beat of 1 or 2 four-bit digits; see K_PR_EMPTY), widthExtend ratio >= 2."""
+    for _ in range(400):
+        digits0 = rng.choice([1, 1, 1, 2, 3, 4, 6]) if not ebsafe else rng.choice([1, 1, 2, 2, 4, 4, 6, 8])
         digits = digits0
         toks = []
         nst = 0
         ok = True
         for i in range(depth):
-            kinds = list(STAGE_KINDS) + (["ff", "fz"] if allow_fifo else [])
-            k = force[i] if force and i < len(force) and force[i] else rng.choice(kinds)
+            kk = list(kinds or STAGE_KINDS) + (["ff", "fz"] if allow_fifo else [])
+            k = force[i] if force and i < len(force) and force[i] else rng.choice(kk)
             if k == "dl":
                 toks.append(f"dl{rng.choice([0, 1, 2, 3, 4])}")
             elif k == "st":
@@ -174,11 +222,26 @@ def gen_chain(rng, depth, allow_fifo=False, force=None):
                 divs = [r for r in (1, 2, 3, 4, 6) if digits % r == 0]
                 r = rng.choice(divs[1:] if len(divs) > 1 and rng.random() < 0.85 else divs)
                 digits //= r; toks.append(f"re{r}")
+            elif k == "px":
+                r = rng.choice([1, 2, 2, 3, 4]) if not ebsafe else rng.choice([2, 2, 3, 4])
+                if digits * r > 12:
+                    ok = False; break
+                digits *= r; toks.append(f"px{r}")
+            elif k == "pr":
+                divs = [r for r in (1, 2, 3, 4, 6, 8) if digits % r == 0 and (not ebsafe or (r >= 2 and digits // r in (1, 2)))]
+                if not divs:
+                    ok = False; break
+                r = rng.choice(divs[1:] if len(divs) > 1 and rng.random() < 0.9 else divs)
+                digits //= r; toks.append(f"pr{r}")
+            elif k == "pm":
+                targets = [t for t in (1, 2, 3, 4, 6, 8, 12) if (t % digits == 0 or digits % t == 0) and (not ebsafe or t >= digits or t in (1, 2))]
+                t = rng.choice(targets)
+                digits = t; toks.append(f"pm{t}")
             elif k in ("ff", "fz"):
                 toks.append(f"{k}{rng.choice([2, 4, 8])}")
             else:
                 toks.append(k)
-        if ok:
+        if ok and not chain_info(parse_chain(",".join(toks), digits0), True, True, eb=ebsafe)["x_poison"]:
             return toks, digits0, nst
     return ["rd"], 1, 0
 
@@ -194,7 +257,7 @@ def gen_case(rng, cid, n, depth=None, hold=None, polite=None, allow_fifo=False, 
     mw = 3
     hold = (rng.random() < 0.8) if hold is None else hold
     polite = (rng.random() < 0.7) if polite is None else polite
-    stages = parse_chain(",".join(toks))
+    stages = parse_chain(",".join(toks), digits0)
     exprod = 1
     for k, a in stages:
         if k == "ex":
@@ -257,10 +320,103 @@ def gen_case(rng, cid, n, depth=None, hold=None, polite=None, allow_fifo=False, 
     return dict(header=header, plan=lines)
 
 
+PAUSE_MODES = ["before_last", "before_last", "before_single", "random", "every", "none"]
+
+
+def gen_pkt_case(rng, cid, n, eb, force=None, depth=None, pause=None, rkind=None, allow_fifo=False, expose=None):
+    """Packet family: the producer sends whole packets (prod=seq) with idle slots placed at packet-beat boundaries,
+    in particular directly in front of the LAST beat of a packet / in front of a one-beat packet, while the consumer is
+    (mostly) ready -- the schedules on which Packet.h widthReduce's beat bookkeeping (sentBits / bytesLeft / bitsLeft,
+    advancing on transfer(out)) matters."""
+    depth = depth or rng.choice([1, 1, 2, 3, 3, 4])
+    kinds = PKT_KINDS if eb else STAGE_KINDS
+    toks, digits0, nst = gen_chain(rng, depth, allow_fifo, force, kinds=kinds, ebsafe=bool(eb) and not expose)
+    if expose:
+        digits0, r_, w_ = expose
+        toks, nst = [f"pr{r_}"], 0
+    w = (4 if eb else rng.choice([3, 4])) if not expose else expose[2]; mw = 3
+    stages = parse_chain(",".join(toks), digits0)
+    cap = chain_info(stages, True, True)["cap"]
+    drain = min(n // 2, max(DRAIN, 2 * cap + 12))
+    body = n - drain
+    pause = pause or rng.choice(PAUSE_MODES)
+    rkind = rkind or rng.choice(["always", "always", "rand9", "rand", "bursty", "alt"])
+    if rkind == "rand9":
+        r = gen_bits(rng, body, "rand", 0.9)
+    elif rkind == "rand":
+        r = gen_bits(rng, body, "rand", rng.choice([0.5, 0.7]))
+    else:
+        r = gen_bits(rng, body, rkind)
+    stalls = [gen_bits(rng, body, "rand", rng.choice([0.0, 0.1, 0.3])) for _ in range(nst)]
+    slow = 1
+    for k, a in stages:
+        if k in ("re", "pr"):
+            slow *= max(1, a)
+    budget = max(6, int(body / (slow * 1.6 + 1)))          # items the producer can get through before the drain tail
+    items = []                                              # (v, digits, eop, meta, eb)
+    def junk(v=0):
+        return (0, [rng.randrange(1 << w) for _ in range(digits0)], rng.randrange(2), rng.randrange(1 << mw), 0)
+    while len(items) < budget:
+        L = rng.choice([1, 1, 2, 2, 3, 4, 5, 7])
+        txid = rng.randrange(1 << mw)
+        for j in range(L):
+            last = j == L - 1
+            npause = 0
+            if pause == "every":
+                npause = rng.choice([1, 2])
+            elif pause == "random":
+                npause = rng.choice([0, 0, 1, 3])
+            elif pause == "before_last" and last and L > 1:
+                npause = rng.choice([1, 1, 2, 4])
+            elif pause == "before_single" and L == 1:
+                npause = rng.choice([1, 2, 3])
+            elif pause == "before_last" and L == 1 and rng.random() < 0.5:
+                npause = rng.choice([1, 2])
+            items += [junk() for _ in range(npause)]
+            ebv = 0
+            if eb and last:
+                ebv = w * rng.randrange(digits0)             # 0 .. digits0-1 empty digits, at least one valid digit
+            items.append((1, [rng.randrange(1 << w) for _ in range(digits0)], 1 if last else 0, txid, ebv))
+    lines = []
+    for i in range(n):
+        it = items[i] if i < len(items) else junk()
+        ri = r[i] if i < body else 1
+        ctl = ("".join(str(sk[i]) for sk in stalls) if i < body else "0" * nst) or "-"
+        lines.append(f"P {it[0]} {'.'.join(str(x) for x in it[1])} {it[2]} {it[3]} {ri} {ctl}" + (f" {it[4]}" if eb else ""))
+    pp = 1 if rng.random() < 0.8 else 0
+    header = (f"C {cid} w={w} mw={mw} min={digits0} chain={','.join(toks) or '-'} hold=1 polite=1 pp={pp} eopg=0 eb={int(eb)} prod=seq "
+              f"n={n} vk=pkt_{pause} rk={rkind}" + (" expose=1" if expose else ""))
+    return dict(header=header, plan=lines)
+
+
+def gen_pkt_cases(seed, tiername, tag, count, n, eb):
+    rng = random.Random(f"C16/{seed}/{tiername}/{tag}")
+    cases = []; i = 0
+    regs = ["rd", "rr", "rb", "dc", "dl", "st"]
+    # the converters alone and wrapped in registers, under every pause placement, consumer always / mostly ready
+    for f in (["pr"], ["px"], ["pm"], ["rd", "pr"], ["pr", "rr"], ["rd", "pr", "rr"], ["rr", "pr", "rd"], ["px", "pr"], ["pr", "px"],
+              ["px", "rd", "pr"], ["dc", "pr", "dc"], ["st", "pr"], ["pr", "st"]):
+        for pm in ("before_last", "before_single", "every", "none"):
+            for rk in ("always", "rand9"):
+                cases.append(gen_pkt_case(rng, f"{tag}{i}", n, eb, force=f, depth=len(f), pause=pm, rkind=rk)); i += 1
+    while len(cases) < count:
+        cases.append(gen_pkt_case(rng, f"{tag}{i}", n, eb, allow_fifo=eb and rng.random() < 0.15)); i += 1
+    return cases
+
+
+def gen_expose_cases(seed, tiername, n):
+    """single Packet.h widthReduce stages on shapes where its Empty/EmptyBits output is wrong on the unchanged tree"""
+    rng = random.Random(f"C16/{seed}/{tiername}/expose")
+    cases = []
+    for i, shape in enumerate([(3, 3, 3), (2, 2, 3), (6, 2, 4), (6, 3, 3), (4, 2, 3), (8, 2, 4 - 1), (3, 3, 3), (6, 2, 4)]):
+        cases.append(gen_pkt_case(rng, f"expose{i}", n, True, expose=shape, pause=rng.choice(["before_last", "none", "every"])))
+    return cases
+
+
 def gen_cases(seed, tiername, tag, count, n, allow_fifo=False):
     rng = random.Random(f"C16/{seed}/{tiername}/{tag}")
     cases = []
-    singles = [["rd"], ["rb"], ["rr"], ["dc"], ["dl"], ["st"], ["ex"], ["re"]]
+    singles = [["rd"], ["rb"], ["rr"], ["dc"], ["dl"], ["st"], ["ex"], ["re"], ["px"], ["pr"], ["pm"]]
     i = 0
     # every single stage under every adversarial ready pattern, conformant producer
     if tag == "tie":
@@ -272,7 +428,7 @@ def gen_cases(seed, tiername, tag, count, n, allow_fifo=False):
             cases.append(gen_case(rng, f"{tag}{i}", n, depth=1, hold=False, polite=False, force=f)); i += 1
         # pairs around the skid buffer and the width converters
         for a in ("rd", "rb", "rr", "st", "ex", "re", "dl"):
-            for b in ("rr", "re", "ex"):
+            for b in ("rr", "re", "ex", "pr", "px"):
                 cases.append(gen_case(rng, f"{tag}{i}", n, depth=2, hold=True, force=[a, b])); i += 1
     while len(cases) < count:
         if allow_fifo:
@@ -326,10 +482,15 @@ def read_log(path):
 
 def parse_ev(line):
     lhs, rhs = line.split("|")
-    _, v, d, e, m, r, ctl = lhs.split()
-    rin, vo, po, eo, mo = rhs.split()
+    lt = lhs.split(); rt = rhs.split()
+    _, v, d, e, m, r, ctl = lt[:7]
+    rin, vo, po, eo, mo = rt[:5]
     return dict(v=v == "1", d=tuple(int(x) for x in d.split(".")), e=e == "1", m=int(m), r=r == "1", ctl=ctl,
-                rin=rin, vo=vo, po=po, eo=eo, mo=mo)
+                rin=rin, vo=vo, po=po, eo=eo, mo=mo, eb=int(lt[7]) if len(lt) > 7 else None, ebo=rt[5] if len(rt) > 5 else None)
+
+
+def digits_of(po):
+    return tuple(int(x) if x != "X" else "X" for x in po.split("."))
 
 
 # ----------------------------------------------------------------------------- the independent oracle
@@ -342,9 +503,16 @@ def oracle_case(params, evlines):
     obs = collections.Counter()
     branch = collections.Counter()
     st_branch[0] = branch
-    stages = parse_chain(params.get("chain", "-"))
-    hold = params.get("hold", "1") == "1"; polite = params.get("polite", "1") == "1"
-    info = chain_info(stages, hold, polite)
+    stages = parse_chain(params.get("chain", "-"), int(params.get("min", "1")))
+    hold = params.get("hold", "1") == "1" or params.get("prod") == "seq"; polite = params.get("polite", "1") == "1"
+    ebmode = params.get("eb", "0") == "1"
+    w = int(params.get("w", "4"))
+    has_px = any(k == "px" for k, _ in stages)
+    info = chain_info(stages, hold, polite, eb=ebmode)
+    if info["x_poison"]:
+        obs[K_XREADY] += 1
+        return None, st, obs
+    expose = params.get("expose") == "1" and len(stages) == 1 and stages[0][0] == "pr"
     tin, tout = [], []
     tout_cycle = []
     prev = None
@@ -356,9 +524,11 @@ def oracle_case(params, evlines):
         if e["rin"] not in "01" or e["vo"] not in "01":
             return dict(event=idx, what="undefined handshake signal (ready_in / valid_out)", line=line), st, obs
         vo = e["vo"] == "1"; rin = e["rin"] == "1"
-        if vo and ("X" in e["po"] or e["eo"] not in "01" or "X" in e["mo"]):
+        if vo and (("X" in e["po"] and not has_px) or e["eo"] not in "01" or "X" in e["mo"]):
             return dict(event=idx, what="valid output beat with undefined payload / eop / meta", line=line), st, obs
-        ob = (tuple(int(x) for x in e["po"].split(".")), e["eo"] == "1", int(e["mo"])) if vo else None
+        ob = (digits_of(e["po"]), e["eo"] == "1", int(e["mo"])) if vo else None
+        if ebmode and vo:
+            ob = ob + (e["ebo"],)
         # hold rule on the real output wire
         if prev is not None and prev[0] is not None and not prev[1]:
             if ob != prev[0] and hold_break is None:
@@ -367,7 +537,7 @@ def oracle_case(params, evlines):
                                   line=line, context=evlines[max(0, idx - 3):idx + 1])
         prev = (ob, e["r"])
         if e["v"] and rin:
-            tin.append((e["d"], e["e"], e["m"])); st["in_transfers"] += 1
+            tin.append((e["d"], e["e"], e["m"]) + ((e["eb"],) if ebmode else ())); st["in_transfers"] += 1
         if vo and e["r"]:
             tout.append(ob); tout_cycle.append(idx); st["out_transfers"] += 1
         if len(stages) == 1:
@@ -375,7 +545,7 @@ def oracle_case(params, evlines):
             tin_now = e["v"] and rin; tout_now = vo and e["r"]
             cls = ("accept+deliver" if tin_now and tout_now else "accept_only(fill)" if tin_now else "deliver_only(drain)" if tout_now
                    else "hold_output(valid&!ready)" if vo else "refuse_input(valid&!ready_in)" if e["v"] else "idle")
-            branch[f"{stages[0][0]}{stages[0][1] if stages[0][0] in ('ex', 're', 'dl') else ''}:{cls}"] += 1
+            branch[f"{stages[0][0]}{stages[0][1] if stages[0][0] in ('ex', 're', 'dl', 'px', 'pr') else ''}:{cls}"] += 1
         if e["v"] and rin and vo and e["r"]:
             st["in_and_out_same_cycle"] += 1
         if vo and not e["r"]:
@@ -385,7 +555,7 @@ def oracle_case(params, evlines):
         if last_e is not None and e["v"] and not last_e["v"] and last_e["r"] and not e["r"]:
             st["ready_falls_when_valid_rises"] += 1
         last_e = e
-        offered_last = (e["d"], e["e"], e["m"]) if (e["v"] and not rin) else None
+        offered_last = ((e["d"], e["e"], e["m"]) + ((e["eb"],) if ebmode else ())) if (e["v"] and not rin) else None
         st["cycles"] += 1
     # hold rule verdict
     if hold_break is not None:
@@ -397,12 +567,78 @@ def oracle_case(params, evlines):
         else:
             obs["hold_break_nonconformant_producer"] += 1
     # transfer sequence
-    if info["expect_transfers"]:
+    idle_tail = 0
+    for l in reversed(evlines):
+        pe = parse_ev(l)
+        if pe["v"] or not pe["r"] or "1" in pe["ctl"]:
+            break
+        idle_tail += 1
+    drained = idle_tail >= 2 * info["cap"] + 8
+    if ebmode and expose:
+        # single Packet.h widthReduce on a shape where its EmptyBits output is known to be wrong (K_PR_EMPTY): everything but
+        # the emptyBits value must be right; the emptyBits value must be either right or exactly the known wrong formula
+        r = max(1, stages[0][1]); exp = []
+        for (d, eop, m, eb) in tin + ([offered_last] if offered_last else []):
+            B = len(d) * w; bpo = B // r; q = len(d) // r
+            valid = B - eb if eop else B
+            k = -(-valid // bpo)
+            for i in range(k):
+                last = eop and i == k - 1
+                exp.append((tuple(d[i * q:(i + 1) * q]), last, m, (k * bpo - valid) if last else None, (valid - (k - 1) * bpo) if last else None, bpo))
+        for i, o in enumerate(tout):
+            if i >= len(exp) or o[:3] != exp[i][:3]:
+                return dict(event=tout_cycle[i], what=f"widthReduce output transfer #{i} is {o}, expected {exp[i][:4] if i < len(exp) else None} (digits / eop / TxId)"), st, obs
+            if exp[i][3] is not None and o[3] != str(exp[i][3]):
+                v, bpo = exp[i][4], exp[i][5]
+                if o[3] == str(v % (1 << (bpo - 1).bit_length())):
+                    obs[K_PR_EMPTY] += 1
+                else:
+                    return dict(event=tout_cycle[i], what=f"widthReduce eop beat {o}: emptyBits should be {exp[i][3]}"), st, obs
+        st["oracle_expose_checked"] += 1
+    elif ebmode and info["expect_transfers"]:
+        # streams with EmptyBits: packets in == packets out, digit exact; eop beat not empty; TxId of the eop beat kept
+        def tokens(recs, bits_of_beat, what):
+            toks = []
+            for (d, eop, m, eb) in recs:
+                if eop:
+                    if eb in ("X", None):
+                        return None, f"{what}: eop beat with undefined emptyBits"
+                    eb = int(eb)
+                    if eb % w or eb >= len(d) * w:
+                        return None, f"{what}: eop beat {d} with emptyBits={eb} of {len(d) * w} bits (empty or not digit aligned)"
+                    nd = len(d) - eb // w
+                    toks += list(d[:nd]) + [("EOP", m)]
+                else:
+                    toks += list(d)
+            return toks, None
+        tin_t, err = tokens(tin + ([offered_last] if offered_last else []), None, "input")
+        tin_now, _ = tokens(tin, None, "input")
+        tout_t, err2 = tokens(tout, None, "output")
+        if err2:
+            return dict(event=None, what=err2), st, obs
+        if tin_t is not None:
+            if tout_t != tin_t[:len(tout_t)]:
+                k = next(i for i in range(len(tout_t)) if i >= len(tin_t) or tout_t[i] != tin_t[i])
+                # locate the output beat that carries token k
+                cnt = 0; cyc = None
+                for rec, cy in zip(tout, tout_cycle):
+                    nd = len(rec[0]) - (int(rec[3]) // w if rec[1] else 0)
+                    cnt += nd + (1 if rec[1] else 0)
+                    if cnt > k:
+                        cyc = cy; break
+                return dict(event=cyc, what=f"packet contents differ at element #{k} (output cycle {cyc}): delivered {tout_t[max(0, k - 4):k + 2]}, accepted {tin_t[max(0, k - 4):k + 2]} "
+                            "(digits of the packets in order, ('EOP', txid) = packet boundary; truncated / extended packet, eop on the wrong beat, wrong emptyBits)"), st, obs
+            if drained and not info["may_deadlock"]:
+                st["drained_cases"] += 1
+                if tin_now is not None and len(tout_t) != len(tin_now):
+                    return dict(event=None, what=f"after {idle_tail} idle cycles only {len(tout_t)} of {len(tin_now)} packet elements came out (beats lost or stuck)"), st, obs
+            st["oracle_packets_checked_emptybits"] += 1
+    elif info["expect_transfers"]:
         fs = collections.Counter()
         exp_now = f_chain(stages, tin, fs)
         exp_ext = f_chain(stages, tin + ([offered_last] if offered_last else []))
-        if tout != exp_ext[:len(tout)]:
-            k = next(i for i in range(len(tout)) if i >= len(exp_ext) or tout[i] != exp_ext[i])
+        if len(tout) > len(exp_ext) or not all(rec_match(o, x) for o, x in zip(tout, exp_ext)):
+            k = next(i for i in range(len(tout)) if i >= len(exp_ext) or not rec_match(tout[i], exp_ext[i]))
             return dict(event=tout_cycle[k], what=f"output transfer #{k} (cycle {tout_cycle[k]}) is {tout[k]}, the accepted input sequence mapped through the chain gives "
                         f"{exp_ext[k] if k < len(exp_ext) else 'nothing (more beats came out than went in)'} (loss / duplication / reordering / eop or meta on the wrong beat)",
                         out_transfers=tout[max(0, k - 3):k + 2], expected=exp_ext[max(0, k - 3):k + 2]), st, obs
@@ -410,13 +646,6 @@ def oracle_case(params, evlines):
             return dict(event=None, what=f"{len(exp_now) - len(tout)} beats in flight exceed the chain capacity {info['cap']}"), st, obs
         # after the drain phase (consumer ready, stalls off, producer idle) everything accepted must have come out;
         # the idle tail must be long enough for the chain's capacity (each output beat needs one ready cycle)
-        idle_tail = 0
-        for l in reversed(evlines):
-            pe = parse_ev(l)
-            if pe["v"] or not pe["r"] or "1" in pe["ctl"]:
-                break
-            idle_tail += 1
-        drained = idle_tail >= 2 * info["cap"] + 8
         if drained and info["may_deadlock"]:
             if len(tout) != len(exp_now) or (st["in_transfers"] == 0 and st["in_backpressure"] > 20):
                 obs[K_DEADLOCK] += 1
@@ -427,6 +656,8 @@ def oracle_case(params, evlines):
                             missing=exp_now[len(tout):len(tout) + 3]), st, obs
         if fs["eop_dropped"]:
             obs[K_EOP] += fs["eop_dropped"]
+        if fs["px_short_group"]:
+            st["widthExtend_short_last_beat"] += fs["px_short_group"]
         st["oracle_transfer_checked"] += 1
     else:
         st["oracle_transfer_skipped_nonconformant_into_reduce"] += 1
@@ -454,7 +685,7 @@ def run_cases(exe, drv, cases, tag):
 def new_agg():
     return dict(cases=0, events=0, hash=set(), classes=collections.Counter(), stage_hist=collections.Counter(), depth_hist=collections.Counter(),
                 pattern_hist=collections.Counter(), flag_hist=collections.Counter(), obs=collections.Counter(), nomodel=0, nontrivial_hashes=set(),
-                branches=collections.Counter())
+                branches=collections.Counter(), pause_hist=collections.Counter())
 
 
 def compare(res, by_id, agg, mismatches, oracle_viol, xlines, samples):
@@ -468,14 +699,20 @@ def compare(res, by_id, agg, mismatches, oracle_viol, xlines, samples):
         stages = parse_chain(p.get("chain", "-"))
         for k, a in stages:
             agg["stage_hist"][k] += 1
+        if "pkt_" in p.get("vk", ""):
+            agg["pause_hist"][f"{p.get('vk')} eb={p.get('eb', '0')}"] += 1
         agg["depth_hist"][len(stages)] += 1
         agg["pattern_hist"][f"valid={p.get('vk', '?')} ready={p.get('rk', '?')}"] += 1
-        agg["flag_hist"][f"hold={p.get('hold')} polite={p.get('polite')} pp={p.get('pp')} aligned_eop={'1' if p.get('eopg', '0') != '0' else '0'}"] += 1
+        agg["flag_hist"][f"hold={p.get('hold')} polite={p.get('polite')} pp={p.get('pp')} aligned_eop={'1' if p.get('eopg', '0') != '0' else '0'} "
+                         f"emptybits={p.get('eb', '0')} producer={p.get('prod', 'cycle')}"] += 1
         h = hashlib.sha1((p.get("chain", "") + "\n" + "\n".join(evs)).encode()).hexdigest()
         agg["hash"].add(h)
         src = by_id.get(p["id"])
+        xp = chain_info(parse_chain(p.get("chain", "-"), int(p.get("min", "1"))), True, True, eb=p.get("eb", "0") == "1")["x_poison"]
         if mcase is not None and mcase[1] is not None:
-            if "nomodel" in mcase[0]:
+            if xp:
+                pass        # simulation goes X at power-up (K_XREADY): nothing to compare with a two-valued machine
+            elif "nomodel" in mcase[0]:
                 agg["nomodel"] += 1
             else:
                 mevs = mcase[2]
@@ -574,12 +811,18 @@ def main():
 
     # ---------------- generated cases (tie + oracle)
     if tiername == "quick":
-        ntie, nfifo, ncyc = 1500, 150, 200
+        ntie, nfifo, npkt, npkteb, ncyc = 1500, 150, 500, 400, 200
     else:
-        ntie, nfifo, ncyc = 15000, 1500, 360
+        ntie, nfifo, npkt, npkteb, ncyc = 15000, 1500, 5000, 4000, 360
     run_batch(gen_cases(seed, tiername, "tie", ntie, ncyc), "tie")
     # chains containing strm::fifo: no Coq machine -> independent oracle only
     run_batch(gen_cases(seed, tiername, "fifo", nfifo, ncyc, allow_fifo=True), "fifo")
+    # packet family: whole packets with pauses at packet-beat boundaries (Packet.h widthReduce / widthExtend / matchWidth)
+    run_batch(gen_pkt_cases(seed, tiername, "pkt", npkt, ncyc, False), "pkt")
+    # the same on streams that carry EmptyBits (partial last beats): no Coq machine -> packet oracle only
+    run_batch(gen_pkt_cases(seed, tiername, "pkteb", npkteb, ncyc, True), "pkteb")
+    # defect-exposing shapes of widthReduce's Empty/EmptyBits output (K_PR_EMPTY), kept apart and labelled
+    run_batch(gen_expose_cases(seed, tiername, ncyc), "pkteb_expose")
 
     # ---------------- verdict
     tie_broken = bool(mismatches) or drv is None or not res["ok"] or bool(errors) or bool(xlines)
@@ -645,6 +888,15 @@ def main():
             for kf in known:
                 if kf.startswith(key):
                     rep.known(kf)
+    # a confirmed defect of the real code: KNOWN-FINDING if listed, VIOLATION otherwise
+    if agg["obs"].get(K_PR_EMPTY):
+        listed = [kf for kf in known if kf.startswith(K_PR_EMPTY)]
+        if listed:
+            rep.known(listed[0])
+        else:
+            rep.violation(dict(property=CID, kind="packet-oracle", what="Packet.h widthReduce delivers Empty/EmptyBits = number of VALID bits (mod 2^k) of the eop narrow beat "
+                               "instead of the number of EMPTY bits", occurrences=agg["obs"][K_PR_EMPTY], example="chain=pr3 w=3: wide beat 7.6.4 eop emptyBits=3 -> eop narrow beat 6 with emptyBits=3 instead of 0",
+                               how_to_replay="checks/C16.py (batch pkteb_expose)"), tag="premptybits")
 
     # ---------------- evidence
     cov = rep.cov
@@ -663,6 +915,7 @@ def main():
     cov["depth_histogram"] = {str(k): v for k, v in sorted(agg["depth_hist"].items())}
     cov["pattern_histogram"] = dict(sorted(agg["pattern_hist"].items()))
     cov["flag_histogram"] = dict(sorted(agg["flag_hist"].items()))
+    cov["packet_pause_placement_histogram"] = dict(sorted(agg["pause_hist"].items()))
     cov["case_classes"] = dict(agg["classes"])
     cov["model_branches_single_stage_cases"] = dict(sorted(agg["branches"].items()))
     cov["by_design_observations"] = dict(agg["obs"])
